@@ -309,6 +309,8 @@ static int do_check(const std::string& prop, int tier, uint64_t base_seed, int j
 	std::set<std::string> known_printed;
 	std::vector<Json> known_hits;
 	std::set<std::string> reported_classes;
+	std::map<std::string, int> resolved_known;
+	int unexamined = 0;
 	bool gate_failed = false;
 	for (auto& v : a.own_viol) {
 		std::string cls = v.str("cls"), msg = v.str("msg");
@@ -321,7 +323,9 @@ static int do_check(const std::string& prop, int tier, uint64_t base_seed, int j
 			continue;
 		}
 		// one replay per violation class is enough: further instances are only counted
-		if (!reported_classes.insert(cls).second) { ++violations; continue; }
+		if (reported_classes.count(cls)) { ++violations; continue; }
+		// classes whose earlier instance turned out (after minimisation) to be a known finding are examined again, a few times
+		if (resolved_known[cls] >= 4) { ++unexamined; continue; }
 		// gate: reproduce twice in fresh processes with the same class
 		RunPlan p = RunPlan::from_json(v.at("plan"));
 		Json r1, r2;
@@ -343,9 +347,11 @@ static int do_check(const std::string& prop, int tier, uint64_t base_seed, int j
 			const Known* k2 = match_known(known, prop, cls, mv->str("msg"));
 			if (k2) {
 				if (known_printed.insert(k2->id).second) printf("KNOWN-FINDING: property=%s %s: %s\n", prop.c_str(), k2->id.c_str(), k2->what.c_str());
+				resolved_known[cls]++;
 				continue;
 			}
 		}
+		reported_classes.insert(cls);
 		mkdir((g_verif + "/replays").c_str(), 0755);
 		std::string path = g_verif + strf("/replays/%s-%s-%llu.json", prop.c_str(), v.str("family").c_str(), (unsigned long long)v.num("seed"));
 		Json rep = Json::obj();
@@ -393,6 +399,7 @@ static int do_check(const std::string& prop, int tier, uint64_t base_seed, int j
 	Json kh = Json::arr();
 	for (auto& k : known_hits) kh.push(k);
 	cov.set("known_findings_hit", kh);
+	cov.set("violations_of_known_shape_not_reexamined", unexamined);
 	cov.set("exhaustive", false);
 	ev.set("coverage", cov);
 	ev.set("assumptions", Json::arr().push("crash model = process death on a page-cache file system (completed calls persist)").push("arrays are small (<= 8 disks, <= 48 stripes, 1-2 KiB blocks)").push("oracles: independent content decoder, GF(2^8) generator, pinned reference hashes, harness copy of every file version"));
